@@ -360,6 +360,14 @@ theorem slow_simplex_infeasible_exact {lm : LinModel (Ext K)} (hW : WF lm) {s : 
     ¬ ∃ x, LinFeasible lm x :=
   phase1_negative_infeasible hW hs stallExtra limit prefer hok hneg
 
+/-- **a tableau handed to the loop witnesses feasibility**: whenever `into_tableau` yields a canonical feasible tableau of
+the standard form (`CanonicalFor`, see `slow_simplex_start_partial`), `lm` HAS a feasible point (the mapped-back basic
+solution).  Hence on an infeasible `lm` the path can only stop at the start, never answer a solution or `Unbounded`. -/
+theorem slow_simplex_start_feasible {lm : LinModel (Ext K)} (hW : WF lm) {s : StdModel (Ext K)}
+    (hs : standardize lm = .ok s) {T : Tab K} (hT : CanonicalFor T (stdK s)) :
+    LinFeasible lm (preimage lm (basicSolution T)) :=
+  canonicalFor_feasible hW hs hT
+
 /-- the loop has exactly three outcomes; the third (`IterationLimitReached`) is reported as `LimitReached` and
 carries no claim. -/
 theorem slow_simplex_outcomes (tol : K) (stallExtra limit : Nat) (prefer : List Nat) (T : Tab K) :
@@ -406,6 +414,39 @@ theorem slow_simplex_two_phase_start_partial {tol : K} (ht : 0 < tol) {lm : LinM
   obtain ⟨hC, hO, hS, hFe, hfl, hoff⟩ :=
     Props.C14.two_phase_start_canonical_partial ht (stdK s) stallExtra phase1Limit hrows hobj' hv hF hd h
   exact ⟨hC, hO, hS, hFe, hfl, hoff⟩
+
+/-- **`CanonicalFor` is not a hypothesis any more: the verdict of the path from `into_tableau` on is exact.**  For every
+well-formed continuous `lm`, its standard form `s`, WHATEVER tableau `into_tableau` returns (direct or two-phase start,
+tolerance `tol > 0`) under the decidable `StartFacts` (the start decided as exact arithmetic would: `NoSubTol` on the
+direct branch; phase-1 value exactly `0`, non-negative basic solution, exactly-zero redundant rows on the two-phase
+branch), and the step loop at exact comparisons: if the loop ends `Finished`, the mapped-back point is feasible and
+optimal for `lm` and `optimal_value` is its objective; if it ends `Unbounded`, `lm` is unbounded.  (The third outcome,
+the iteration limit, carries no claim: `slow_simplex_outcomes`.) -/
+theorem slow_simplex_verdict_exact_partial {tol : K} (ht : 0 < tol) {lm : LinModel (Ext K)} (hW : WF lm)
+    {s : StdModel (Ext K)} (hs : standardize lm = .ok s) (stallExtra phase1Limit : Nat)
+    (hfacts : StartFacts tol stallExtra phase1Limit (stdK s))
+    {T : Tab K} (hT : intoTableau tol stallExtra phase1Limit (stdK s) = .ok T) (limit : Nat) (prefer : List Nat) :
+    ((solve (0:K) stallExtra limit prefer T).result = .ok () →
+      LinFeasible lm (preimage lm (basicSolution (solve (0:K) stallExtra limit prefer T).final)) ∧
+      (∀ x, LinFeasible lm x →
+        (lm.optType = .min →
+          obj lm (preimage lm (basicSolution (solve (0:K) stallExtra limit prefer T).final)) ≤ obj lm x) ∧
+        (lm.optType = .max →
+          obj lm x ≤ obj lm (preimage lm (basicSolution (solve (0:K) stallExtra limit prefer T).final)))) ∧
+      optimalValue (solve (0:K) stallExtra limit prefer T).final =
+        obj lm (preimage lm (basicSolution (solve (0:K) stallExtra limit prefer T).final))) ∧
+    ((solve (0:K) stallExtra limit prefer T).result = .error .unbounded →
+      ∀ M : K, ∃ x, LinFeasible lm x ∧ (lm.optType = .min → obj lm x < M) ∧ (lm.optType = .max → M < obj lm x)) :=
+  have hc := intoTableau_canonicalFor ht hW hs stallExtra phase1Limit hfacts hT
+  ⟨fun hfin => finished_optimal hW hs hc stallExtra limit prefer hfin,
+   fun hunb M => unbounded_original hW hs hc stallExtra limit prefer hunb M⟩
+
+/-- `StartFacts` + a returned tableau give the interface (both branches at once). -/
+theorem slow_simplex_start_partial {tol : K} (ht : 0 < tol) {lm : LinModel (Ext K)} (hW : WF lm)
+    {s : StdModel (Ext K)} (hs : standardize lm = .ok s) (stallExtra phase1Limit : Nat)
+    (hfacts : StartFacts tol stallExtra phase1Limit (stdK s))
+    {T : Tab K} (hT : intoTableau tol stallExtra phase1Limit (stdK s) = .ok T) : CanonicalFor T (stdK s) :=
+  intoTableau_canonicalFor ht hW hs stallExtra phase1Limit hfacts hT
 
 /-! ### the built-in simplex honours the solver contract that C03's composition assumes
 
@@ -478,6 +519,15 @@ example : standardize exUnb = .ok exUnbStd ∧ WF exUnb ∧ CanonicalFor exTU (s
     obtain ⟨x, hx, hmin, _⟩ :=
       slow_simplex_unbounded_exact exUnb_wf exUnb_std exTU_canonicalFor 1 10 [] exTU_solve M
     exact ⟨x, hx, hmin rfl⟩⟩
+
+/-- `slow_simplex_verdict_exact_partial` with NO interface hypothesis: for `exMin` the start facts hold (tolerance `1e-5`,
+direct branch), `into_tableau` is evaluated (`exMin_intoTableau`), the loop stops `Finished` at once, and the theorem
+yields feasibility and optimality of `x = 2`. -/
+example : LinFeasible exMin [2] ∧ ∀ x, LinFeasible exMin x → obj exMin [2] ≤ obj exMin x := by
+  obtain ⟨h1, h2, _⟩ := (slow_simplex_verdict_exact_partial (tol := (1/100000 : ℚ)) (by norm_num) exMin_wf exMin_std 1 10
+    exMin_startFacts exMin_intoTableau 10 []).1 exT'_solve.1
+  rw [exT'_solve.2, exT'_preimage] at h1 h2
+  exact ⟨h1, fun x hx => (h2 x hx).1 rfl⟩
 
 /-- the hypotheses of `slow_simplex_infeasible_exact` are satisfiable (`min x s.t. x ≤ −1, x ≥ 0`: the phase-1 tableau
 is optimal at once, at value `−1`), and it applies. -/
